@@ -68,7 +68,15 @@ log = logging.getLogger(__name__)
 
 def _is_plain_value(value: Any) -> bool:
     """Check if a value is made only of None, booleans, numbers, strings and lists/tuples/sets/dicts of them."""
-    if value is None or isinstance(value, (bool, int, float, str)):
+    if value is None or isinstance(value, (bool, float, str)):
+        return True
+    if isinstance(value, int):
+        # An int that cannot be converted to a decimal string (CPython limits the int/str
+        # conversion, see sys.get_int_max_str_digits) can't be serialized with the state.
+        try:
+            str(value)
+        except ValueError:
+            return False
         return True
     if isinstance(value, (list, tuple, set)):
         return all(_is_plain_value(v) for v in value)
